@@ -14,6 +14,9 @@ Definition dict_s (l : list (Z * Q)) : string :=
 (* a case that is rejected before any crossing renders as  R:<Type:detail>,  a crossing that raises as  E:<Type:detail> *)
 
 (* ---------- literal constructors ---------- *)
+(* a float given as mantissa and binary exponent:  m * 2^e  (parses faster than  n # d  with a long denominator) *)
+Definition fq (m e : Z) : Q :=
+  if (0 <=? e)%Z then Qmake (m * 2 ^ e) 1 else Qmake m (Z.to_pos (2 ^ (- e))).
 Definition sq (q : Q) : option Q := Some q.
 Definition dg (k : Z) (v : Q) : Z * Q := (k, v).
 Definition rc (b w : Q) : option (Q * Q) := Some (b, w).
